@@ -54,3 +54,26 @@ Theorem C08_install_covering_log_then_append : forall m ptr x,
   m_logs m1 = [fresh_range ptr] /\ m_saved m1 = [fresh_range ptr] /\
   snd (mgr_write 3 m1 x true) = WOk.
 Proof. exact install_covering_log_then_append. Qed.
+
+(** the abstract statement above on two CONCRETE components (round 3):
+
+    NamespaceActor (literal model SM/ConcreteNs.v, incl. the snapshot codec): a RUNNING node in any
+    reachable state [f] that loads the leader's snapshot holds, for every namespace the leader has,
+    exactly the leader's entry (name, flag) and keeps its own entry elsewhere *)
+From RN Require Import Base.SMap SM.ConfigKey SM.ConcreteNs SM.ConcreteNsProofs SM.Sequence SM.SequenceProofs.
+
+Theorem C08_namespace_install_exact : forall l f,
+  ns_inv l -> ns_already l = false -> sm_get str_cmp (ns_data l) NS_MARK = None ->
+  Forall wf_ns_entry (ns_data l) -> ns_inv f ->
+  forall k, sm_get str_cmp (ns_data (ns_install f l)) k =
+            match sm_get str_cmp (ns_data l) k with
+            | Some v => Some v
+            | None => sm_get str_cmp (ns_data f) k
+            end.
+Proof. exact ns_install_exact. Qed.
+
+(** SequenceDbManager: every counter the leader has is taken over exactly (stated under C19 as well) *)
+Theorem C08_sequence_install_exact : forall leader follower k, sm_wf str_cmp leader ->
+  next_free (db_install follower (db_snapshot leader)) k =
+  match sm_get str_cmp leader k with Some v => v | None => next_free follower k end.
+Proof. exact db_install_next_free. Qed.
